@@ -246,6 +246,50 @@ fn ac_on_purge() {
     kani::cover!(r.is_ok() && n == 2 && q[0].dead.is_none() && q[1].dead.is_none(), "both purged");
 }
 
+/// on_diff (C05, the actor's side of the repair exchange): the reply is EXACTLY the difference the set computes
+/// against the peer's state -- `changes` = the peer's live entries this replica lacks, `removals` = the peer's
+/// tombstones it lacks, each with the peer's stamp, nothing dropped, nothing added -- and the replica is unchanged.
+/// Modular: `state.diff` is the contract of os_diff_list (SpecSet::diff = the `lacks` kernel per item);
+/// peer state with <= 1 live entry + <= 1 tombstone (class B), own state arbitrary/unbounded.
+#[kani::proof]
+#[kani::unwind(4)]
+fn ac_on_diff() {
+    let a = any_actor();
+    let mut o: OrSWotSet<NUM_SOURCES> = OrSWotSet::default();
+    let kl: Key = kani::any();
+    let kd: Key = kani::any();
+    kani::assume(kl != kd);
+    let tl = HLCTimestamp::havoc();
+    let td = HLCTimestamp::havoc();
+    let has_l: bool = kani::any();
+    let has_d: bool = kani::any();
+    if has_l {
+        o.entries.insert(kl, tl.as_u64());
+    }
+    if has_d {
+        o.dead.insert(kd, td.as_u64());
+    }
+    let pl = key_view(&a, kl);
+    let pd = key_view(&a, kd);
+    kani::assume(wf(&pl) && wf(&pd));
+    let want_l = has_l && k_lacks(slot_of(&pl), a.state.cutoff(tl.node()), tl.as_u64());
+    let want_d = has_d && k_lacks(slot_of(&pd), a.state.cutoff(td.node()), td.as_u64());
+    let (changes, removals) = (a.on_diff(Diff(o)));
+    assert!(changes.len() == if want_l { 1 } else { 0 }, "modifications: exactly the peer's live entries this replica lacks");
+    assert!(removals.len() == if want_d { 1 } else { 0 }, "removals: exactly the peer's tombstones this replica lacks (held live, held as an older tombstone, or not held at all)");
+    if want_l {
+        assert!(changes.get(0) == Some(&(kl, tl)), "a modification carries the peer's stamp");
+    }
+    if want_d {
+        assert!(removals.get(0) == Some(&(kd, td)), "a removal carries the peer's stamp");
+    }
+    assert!(key_view(&a, kl) == pl && key_view(&a, kd) == pd, "computing the difference changes nothing");
+    kani::cover!(want_d && pd.live.is_none() && pd.dead.is_none(), "tombstone for a key this replica never held is listed");
+    kani::cover!(want_d && pd.live.is_some(), "tombstone newer than the held live entry is listed");
+    kani::cover!(has_d && !want_d, "tombstone not lacking");
+    kani::cover!(want_l && want_d, "both lists non-empty");
+}
+
 // native replay of Kani counterexamples (tools/replay.py writes the file)
 #[cfg(verif_replay)]
 include!("/verif/build/actor/replay_tests.rs");
